@@ -134,7 +134,7 @@ func (maybeSelf someDef[T]) ToString() string {
 
 // ToPtr Maybe to Ptr
 func (maybeSelf someDef[T]) ToPtr() *T {
-	if maybeSelf.IsPtr() {
+	if maybeSelf.IsPtr() && !maybeSelf.IsNil() {
 		val := reflect.Indirect(reflect.ValueOf(maybeSelf.ref)).Interface()
 		switch val.(type) {
 		case *T:
